@@ -212,6 +212,18 @@ func init() {
 		},
 	})
 	register(&Property{
+		ID:    "C07",
+		Units: serveUnits,
+		Runs: []Run{
+			{Pkg: "fasthttp", Func: "vhC07RequestBodyLimit", Quick: map[string]int{"maxLimit": 6, "maxBody": 8}, Thorough: map[string]int{"maxLimit": 8, "maxBody": 9}},
+			{Pkg: "fasthttp", Func: "vhC07HeadTooLarge"},
+		},
+		Assume: []string{serveAssume,
+			"server-side clauses only: MaxRequestBodySize = L symbolic in [1, maxLimit], a non-streamed POST with n ≤ maxBody arbitrary body bytes, fixed-length or chunked in one or two chunks, followed by a second request; ReadBufferSize = 64 with heads of 33..153 bytes",
+			"client MaxResponseBodySize, *WithLimit decompression and multipart helpers, streamed bodies, limits in the KiB/MiB range and other ReadBufferSize values are outside this check; the error status is only required to be 4xx (fasthttp answers 400, not 413, for an oversized body)",
+		},
+	})
+	register(&Property{
 		ID:    "C10",
 		Units: serveUnits,
 		Runs: []Run{
